@@ -506,7 +506,7 @@ def run(ctx):
     ctx.assumptions += ['single-threaded rendering; concurrent render engines are outside the model']
     from harness.translators import notify_edges
     notify_edges.generate(ctx)
-    ctx.lean_check(['Cherab.Props.C01', 'Cherab.Props.C01Table'], 'Cherab/Audit/C01.lean')
+    ctx.lean_check(['Cherab.Props.C01', 'Cherab.Props.C01Notifier', 'Cherab.Props.C01Table'], 'Cherab/Audit/C01.lean')
     M = mutators(S)
     refill_correspondence(ctx, S, M)
     notifier_correspondence(ctx)
